@@ -14,6 +14,9 @@ Static clauses decided (necessary conditions of C08):
         program-supplied values: (1) a function that itself has a from_db parameter forwards it (or False) to every callee that
         accepts one -- never a constant True, never the callee's default when that default is True; (2) a call that relies on a
         default of True passes a value read from a cursor row.
+ SAMEVAL the value that is checked is the value that is kept: in every converter's validate(), after a test of the value against a
+        declared bound (min_val / max_val / max_len) the value variable is not re-bound (quantize, strip, round, convert) on a path to
+        the return -- normalisation comes first, otherwise a value is rejected (or accepted) for what it was before normalisation.
  CHECK  Attribute.validate applies the user's py_check on every path that returns a converted non-None value, and
         Required.validate rejects '' and None.
  RANGE  IntConverter.validate / RealConverter.validate / DecimalConverter.validate compare the value with both
@@ -185,6 +188,25 @@ def run(ctx):
                        % (c.func.attr, src), node=c, expected='from_db=False for program-supplied values')
     ctx.floor('C08-TRUST', n1, 4, 'forwarding call sites in functions with a from_db parameter')
     ctx.floor('C08-TRUST', n2, 8, 'call sites relying on the default from_db=True')
+    # ------------------------------------------------------------ SAMEVAL
+    nsv = 0
+    for fn in repo.rule_funcs():
+        if fn.name != 'validate' or fn.cls is None or not fn.cls.name.endswith('Converter') or len(fn.params) < 2: continue
+        v = fn.params[1]
+        g = cg.cfg(fn)
+        tests = [t for t in g.nodes if t.kind == 'test' and any(isinstance(a, ast.Attribute) and a.attr in ('min_val', 'max_val', 'max_len') for a in t.walk())
+                 and any(isinstance(a, ast.Name) and a.id == v for a in t.walk())]
+        if not tests: continue
+        nsv += 1
+        rebinds = [x for x in g.nodes if x.kind == 'stmt' and isinstance(x.ast, (ast.Assign, ast.AugAssign)) and
+                   any(isinstance(t_, ast.Name) and t_.id == v for t_ in (x.ast.targets if isinstance(x.ast, ast.Assign) else [x.ast.target]))]
+        after = g.reach(tests, include_src=False)
+        bad = [x for x in rebinds if x.id in after and g.exit.id in g.reach([x])]
+        ctx.ob('C08-SAMEVAL.value-not-rebound-after-its-bounds-check', fn, bad[0].ast if bad else fn.node, not bad,
+               '' if not bad else '%s.validate re-binds `%s` (`%s`) after comparing it with the declared bounds: the bounds are applied to the value before this '
+               'normalisation, so a value that satisfies them afterwards is rejected, or one that violates them afterwards is accepted' % (fn.cls.name, v, norm(bad[0].ast)),
+               node=bad[0].ast if bad else None, expected='normalise first, then compare with min/max')
+    ctx.floor('C08-SAMEVAL', nsv, 3, 'converter validate() functions with bound tests')
     # ------------------------------------------------------------ CHECK
     av = repo.fn('pony.orm.core', 'Attribute.validate')
     g = cg.cfg(av)
@@ -209,6 +231,9 @@ def run(ctx):
 
 
 MUTANTS = [
+    dict(id='C08-sv1', file='pony/orm/dbapiprovider.py', fn='DecimalConverter.validate',
+         old="                             % (val, converter.attr, converter.max_val))\n        return val",
+         new="                             % (val, converter.attr, converter.max_val))\n        if converter.exp is not None and val.is_finite(): val = val.quantize(converter.exp)\n        return val", expect='C08-SAMEVAL'),
     dict(id='C08-t1', file='pony/orm/core.py', fn='EntityMeta._get_by_raw_pkval_', old="val = attr.py_type._get_by_raw_pkval_(vals, from_db=from_db, seed=seed)", new="val = attr.py_type._get_by_raw_pkval_(vals, seed=seed)", expect='C08-TRUST'),
     dict(id='C08-t2', file='pony/orm/core.py', fn='Attribute.validate', old="rentity._get_by_raw_pkval_(vals, from_db=from_db)", new="rentity._get_by_raw_pkval_(vals)", expect='C08-TRUST'),
     dict(id='C08-t3', file='pony/orm/core.py', fn='Required.validate', old="        val = Attribute.validate(attr, val, obj, entity, from_db)", new="        val = Attribute.validate(attr, val, obj, entity, True)", expect='C08-TRUST'),
